@@ -1,13 +1,12 @@
 SPECIFICATION Spec
 CONSTANTS
-  P = 3
-  K = 2
-  Nested = FALSE
-  WaitFirst = TRUE
+  P = 2
+  K = 1
+  Nested = TRUE
+  WaitFirst = FALSE
   Synchronised = TRUE
 INVARIANTS
   AllReported
   NoneInvented
-  EmitInv
 PROPERTY Terminates
 CHECK_DEADLOCK FALSE
